@@ -328,6 +328,7 @@ def main():
             res['native_build_s'] = round(time.time() - t0, 2)
         # ---- replay every distinct candidate against the real code
         seen = set()
+        san_exe = None
         for kind, ident, inputs, c_entry in cand_list:
             if (kind, ident, c_entry) in seen:
                 continue
@@ -342,7 +343,9 @@ def main():
             exe = native_exe
             if kind == 'ub':
                 try:
-                    exe = P.native_cpp(k, tier, kdir, sanitize=True)
+                    if san_exe is None:
+                        san_exe = P.native_cpp(k, tier, kdir, sanitize=True)
+                    exe = san_exe
                 except P.BuildError as ex:
                     rec['note'] = 'sanitizer build failed: %s' % str(ex)[:200]
             rc, out, err = P.run_native(exe, replay=rp, entry=c_entry)
